@@ -138,9 +138,23 @@ fn main() {
         if r.is_err() {
             let msg = LAST_PANIC.with(|p| p.borrow().clone());
             run.panics_observed += 1;
-            if def.panic_is_violation || is_ub_or_overflow_panic(&msg) || is_harness_side(&msg) {
-                let sig = panic_sig(&msg);
-                run.violation("panic", &sig, msg);
+            let ub = is_ub_check_panic(&msg);
+            let overflow = is_ub_or_overflow_panic(&msg) && !ub;
+            if def.panic_is_violation || ub || is_harness_side(&msg) {
+                let mut sig = panic_sig(&msg);
+                // root-cause tag attached by the workload to the current case, if any
+                let note = report::LAST_NOTE.lock().map(|g| g.clone()).unwrap_or_default();
+                if let Some(i) = note.rfind("{{sig:") {
+                    if let Some(j) = note[i..].find("}}") {
+                        sig = format!("{sig}/{}", &note[i + 6..i + j]);
+                    }
+                }
+                let kind = if ub || overflow { "ub-panic" } else { "panic" };
+                run.violation(kind, &sig, format!("{msg} :: {}", note.chars().take(1200).collect::<String>()));
+            } else if overflow {
+                // properties whose statement allows a panic as a form of failure (C19, C20's
+                // abuse of invalid raw parts): an overflow *panic* is still a panic; counted
+                run.count("overflow_panics_on_invalid_input", 1);
             }
         }
         run.end_case();
@@ -164,6 +178,10 @@ fn main() {
 
 /// Arithmetic-overflow panics and bounds panics inside the library are C20-class events in
 /// every property ("arithmetic that is only correct because release builds wrap").
+pub fn is_ub_check_panic(msg: &str) -> bool {
+    msg.contains("unsafe precondition") || msg.contains("cannot unwind") || msg.contains("misaligned pointer") || msg.contains("null pointer dereference")
+}
+
 pub fn is_ub_or_overflow_panic(msg: &str) -> bool {
     msg.contains("attempt to ") && msg.contains("overflow")
         || msg.contains("unsafe precondition")
